@@ -36,11 +36,14 @@ func record(env *core.Env, emit func(map[string]any)) (*core.Summary, error) {
 			} else {
 				st = core.Step{"op": "Remove", "id": float64(id)}
 			}
-			ret, chk, err := d.Apply(st)
+			ret, chk, err := safeApply(d, st)
 			if err != nil {
 				return nil, err
 			}
 			ev := map[string]any{"ev": st.Op(), "ret": ret, "chk": core.Norm(chk)}
+			if chk == nil {
+				delete(ev, "chk")
+			}
 			for kk, v := range st {
 				if kk != "op" {
 					ev[kk] = v
@@ -51,6 +54,9 @@ func record(env *core.Env, emit func(map[string]any)) (*core.Summary, error) {
 			}
 			emit(ev)
 			sum.Steps++
+			if rs, ok := ret.(string); ok && len(rs) > 6 && rs[:6] == "panic:" {
+				break // the object is in an unknown state; the trace specification rejects this event
+			}
 			if len(evs) < 8 {
 				evs = append(evs, ev)
 			}
@@ -64,4 +70,14 @@ func record(env *core.Env, emit func(map[string]any)) (*core.Summary, error) {
 		}
 	}
 	return sum, nil
+}
+
+// safeApply: a panic of the code under test is an observed reply ("panic:..."), not a harness failure
+func safeApply(d *drv, st core.Step) (ret any, chk any, err error) {
+	defer func() {
+		if r := recover(); r != nil {
+			ret, chk, err = fmt.Sprintf("panic: %v", r), nil, nil
+		}
+	}()
+	return d.Apply(st)
 }
